@@ -46,7 +46,7 @@ def run_e2(res, tier):
             continue
         if tier == "quick" and not (tags & {"samename", "reply", "kinds", "names_in", "parts"}):
             continue
-        hs = fam_basic.handlers(c)
+        hs = fam_basic.handlers(c, include_reply=True)
         kind_of = {"%s::%s" % (disp, bare(m.name)): m.kind for (label, disp, m) in hs}
         have = set(m.kind for _, _, m in hs)
         docs = []
